@@ -1,7 +1,11 @@
 #!/bin/bash
-# Emits the go build -overlay JSON: adds /verif/overlay/<pkgpath__with__slashes>__name.go files to /repo packages.
-# File naming: overlay/<dir with / replaced by __>--<name>.go  → $REPO/<dir>/zz_verif_<name>.go
+# Emits the go build -overlay JSON: adds /verif/overlay/<dir with / as __>--<name>.go files to /repo packages,
+# plus generated VerifGlobals accessors for every package (from mkglobals).
 HERE="$1"; REPO="$2"
+export GOFLAGS=-mod=mod GOPROXY=off
+if [ ! -x "$HERE/build/mkglobals" ] || [ "$HERE/harness/cmd/mkglobals/main.go" -nt "$HERE/build/mkglobals" ]; then
+  (cd "$HERE/harness" && go build -o "$HERE/build/mkglobals" ./cmd/mkglobals) >&2
+fi
 echo '{"Replace":{'
 first=1
 for f in "$HERE"/overlay/*.go; do
@@ -12,5 +16,9 @@ for f in "$HERE"/overlay/*.go; do
   [ $first = 1 ] || echo ','
   first=0
   printf '"%s/%s/zz_verif_%s.go":"%s"' "$REPO" "$dir" "$name" "$f"
+done
+mkdir -p "$HERE/build/globals"
+"$HERE/build/mkglobals" "$REPO" "$HERE/build/globals" | while IFS=$'\t' read -r v g; do
+  printf ',\n"%s":"%s"' "$v" "$g"
 done
 echo '}}'
